@@ -4,7 +4,13 @@ pub enum SEffect {
     Abort { handle: int },
     /// RequestCancellation::cancel(id): the id was pushed onto the channel's cancellation queue
     CancelMsg { id: u64 },
+    /// the application's handler (Serve::serve) was invoked
+    Handler,
+    /// a response bearing this id was handed to the response fan-in queue
+    Respond { id: u64 },
 }
+/// futures::future::Aborted
+pub struct Aborted;
 pub tracked struct SFx { pub ghost log: Seq<SEffect> }
 
 #[verifier::external_body] pub struct AbortHandle { _p: u8 }
@@ -23,6 +29,10 @@ impl AbortHandle {
 }
 impl AbortRegistration {
     pub uninterp spec fn id(&self) -> int;
+    /// R15 model of Abortable: whether the paired AbortHandle fires before the wrapped future completes
+    /// (unconstrained: both outcomes are considered)
+    #[verifier::external_body]
+    pub fn aborted(&self) -> (b: bool) { unimplemented!() }
 }
 
 /// crate::cancellations::RequestCancellation (sender half of the cancellation queue)
